@@ -28,6 +28,15 @@ func (fr *Frame) term(st *State, x ssa.Value) *Term {
 
 func (fr *Frame) step(st *State, ins ssa.Instruction) {
 	v := fr.v
+	if fr.top && fr.nextBlock < len(fr.blockEnds) && !v.scratch {
+		if p := ins.Pos(); p.IsValid() {
+			for fr.nextBlock < len(fr.blockEnds) && p > fr.blockEnds[fr.nextBlock] {
+				fr.nextBlock++
+				fr.cnt["block:"] = fr.nextBlock - 1
+				fr.anchor(st, "block", "", -1)
+			}
+		}
+	}
 	env := st.env()
 	switch i := ins.(type) {
 	case *ssa.DebugRef:
@@ -58,6 +67,11 @@ func (fr *Frame) step(st *State, ins ssa.Instruction) {
 		o := v.newObject(fr.fn.Name()+"."+name, t, false)
 		st.mem[o] = v.zeroValue(t)
 		env[i] = &PtrV{Obj: o}
+		if fr.top && i.Comment != "" {
+			v.localNames[o] = i.Comment
+			st.srcVar[i.Comment] = env[i]
+			st.srcAdr[i.Comment] = true
+		}
 	case *ssa.BinOp:
 		env[i] = fr.binop(st, i)
 	case *ssa.UnOp:
@@ -501,12 +515,10 @@ func (fr *Frame) binop(st *State, i *ssa.BinOp) Value {
 		if ii.signed {
 			// x | -x idiom: sign bit set iff x != 0
 			if i.Op == token.OR {
-				if fr.isNegOf(i.X, i.Y) || fr.isNegOf(i.Y, i.X) {
-					base := x
-					if fr.isNegOf(i.Y, i.X) {
-						base = y
-					}
-					fr.v.orNeg[i] = base
+				if fr.isNegOf(st, i.Y, x) {
+					fr.v.orNeg[i] = x
+				} else if fr.isNegOf(st, i.X, y) {
+					fr.v.orNeg[i] = y
 				}
 			}
 			return F.WrapS(ii.w, r)
@@ -547,9 +559,14 @@ func (fr *Frame) binop(st *State, i *ssa.BinOp) Value {
 
 func ii2max(w int) *big.Int { return new(big.Int).Sub(pow2(w), big.NewInt(1)) }
 
-func (fr *Frame) isNegOf(a, b ssa.Value) bool {
+// isNegOf: a is the SSA negation of a value whose term is t
+func (fr *Frame) isNegOf(st *State, a ssa.Value, t *Term) bool {
 	u, ok := a.(*ssa.UnOp)
-	return ok && u.Op == token.SUB && u.X == b
+	if !ok || u.Op != token.SUB {
+		return false
+	}
+	x, ok := st.env()[u.X].(*Term)
+	return ok && x == t
 }
 
 // 2^y for symbolic y in [0,w) as an ite chain (y >= w gives 0 contribution via wrap, modelled as 2^w)
